@@ -860,8 +860,18 @@ class HelicityDecay(AmpDecay):
             ls, out_sym=out_sym, helicity_inner_full=self.helicity_inner_full
         )
 
-    @functools.lru_cache()
-    def _get_cg_matrix(
+    def _get_cg_matrix(self, ls, out_sym=False, helicity_inner_full=False):
+        # cached on the object: decays of different models compare equal by
+        # name, a cache shared through `self` would mix up their spins
+        cache = self.__dict__.setdefault("_cached_cg_matrix", {})
+        key = (tuple(ls), out_sym, helicity_inner_full)
+        if key not in cache:
+            cache[key] = self._build_cg_matrix(
+                ls, out_sym=out_sym, helicity_inner_full=helicity_inner_full
+            )
+        return cache[key]
+
+    def _build_cg_matrix(
         self, ls, out_sym=False, helicity_inner_full=False
     ):  # CG factor inside H
         """
